@@ -1,5 +1,6 @@
 import Scion.Model.RevCache
 import Scion.Proofs.RevCache
+import Scion.Gen.StoresFacts
 /-!
 # C31 — The revocation cache keeps the newest live revocation per interface
 
@@ -201,6 +202,13 @@ theorem cleanup_exact {s : State} (hs : Reachable s) (now : Nat) :
     exact ⟨this.1, by simpa using this.2⟩
   · intro k t ht
     exact getLive_deleteExpired s now t k (reachable_wf hs) ht
+
+/-- T3: the decisions of `memRevCache.Insert` as they stand in the source (regenerated on every
+    run) are the three the model transcribes, in this order: reject when the remaining lifetime
+    is not positive, store when nothing live is cached, replace only when strictly newer -/
+theorem gen_insert_decisions :
+    Scion.Gen.StoresFacts.revInsertConds =
+      ["ttl <= 0", "!ok", "rev.Timestamp().After(val.Timestamp())"] := by decide
 
 /-! ## Non-vacuity -/
 
